@@ -1,0 +1,58 @@
+//go:build verif
+
+package signaller
+
+import (
+	"time"
+
+	sdk "github.com/cosmos/cosmos-sdk/types"
+
+	"github.com/bandprotocol/chain/v3/x/feeds/types"
+)
+
+// This file is compiled only with the `verif` build tag. It exposes one round of the signaller with an
+// injected clock, and the two pure helpers, to the verification harness.
+
+// IsDeviatedForVerif exposes isDeviated.
+func IsDeviatedForVerif(deviationBasisPoint int64, oldPrice uint64, newPrice uint64) bool {
+	return isDeviated(deviationBasisPoint, oldPrice, newPrice)
+}
+
+// CalculateAssignedTimeForVerif exposes calculateAssignedTime.
+func CalculateAssignedTimeForVerif(
+	valAddr sdk.ValAddress,
+	interval int64,
+	timestamp int64,
+	dpOffset uint64,
+	dpStart uint64,
+) time.Time {
+	return calculateAssignedTime(valAddr, interval, timestamp, dpOffset, dpStart)
+}
+
+// StepForVerif runs one iteration of Start (without the sleep): the validity query, the refresh of the
+// internal maps and the body of execute, with `now` instead of time.Now(). It returns the prices handed to
+// the submitter (nil when none) and whether the round ran at all.
+func (s *Signaller) StepForVerif(now time.Time) ([]types.SignalPrice, bool) {
+	resp, err := s.feedQuerier.QueryValidValidator(s.valAddress)
+	if err != nil || !resp.Valid {
+		return nil, false
+	}
+	if !s.updateInternalVariables() {
+		return nil, false
+	}
+
+	nonPendingSignalIDs := s.getNonPendingSignalIDs()
+	if len(nonPendingSignalIDs) == 0 {
+		return nil, true
+	}
+	res, err := s.bothanClient.GetPrices(nonPendingSignalIDs)
+	if err != nil {
+		return nil, true
+	}
+	signalPrices := s.filterAndPrepareSignalPrices(res.Prices, nonPendingSignalIDs, now)
+	if len(signalPrices) == 0 {
+		return nil, true
+	}
+	s.submitPrices(signalPrices, res.Uuid)
+	return signalPrices, true
+}
